@@ -478,6 +478,8 @@ func buildShape(uid, shape string, p *int, leaf *int, depth int) (resp.Value, bo
 		return resp.Simple(lineSafe(tag())), true
 	case 'b':
 		return resp.Bulk(tag() + "\r\n\x00bin"), true
+	case 'z':
+		return resp.Bulk(""), true // the empty bulk string: "$0\r\n\r\n"
 	case 'i':
 		*leaf++
 		h := int64(0)
